@@ -423,6 +423,78 @@ def run(ctx):
             mb.close()
     regenerated_in_place()
 
+    def regenerated_by_watcher():
+        """the reader is generated by a long-running `yardl generate --watch` that has seen earlier models of the same protocol: the model file is saved
+        several times (the protocol stays where it is; a record, an enum base, a vector length below it change); after every regeneration the Python
+        reader the watcher wrote is fed the streams of every earlier model (written with the schema a one-shot generation embeds)."""
+        from vlib import mut as mutmod
+        from props import C20
+        chains = [("record-field", ["float32", "float64", "int32", "float32"]), ("enum-base", ["uint8", "int16", "uint64"]), ("vector-length", [3, 4, None])]
+        if quick:
+            chains = [(n, ch[:3]) for n, ch in chains]
+
+        def mk(kind, x):
+            t = x if kind == "record-field" else "int32"
+            fields = [("gain", P(t)), ("offset", P("float32"))]
+            defs = [Rec("Cal", fields)]
+            if kind == "enum-base":
+                defs = [En("Mode", [("idle", 0), ("armed", 1)], x, False, True), Rec("Cal", fields + [("mode", N("Mode"))])]
+            if kind == "vector-length":
+                defs = [Rec("Cal", fields + [("taps", V(P("float32"), x))])]
+            return Pkg("Regen", defs + [Proto("Trace", [("cal", N("Cal")), ("samples", S(N("Cal"))), ("n", P("uint32"))])], [], [], "regen")
+
+        for kind, chain in chains:
+            pkgs = [mk(kind, x) for x in chain]
+            streams = []
+            for k, pk in enumerate(pkgs):
+                rootk = os.path.join(ctx.workdir, "cases", "watchregen_%s_ref%d" % (kind, k))
+                shutil.rmtree(rootk, ignore_errors=True)
+                mr = mutmod.Mut(pk, rootk, langs=("python",))
+                try:
+                    mr.generate()
+                except mutmod.GenerateFailed as e:
+                    raise Inconclusive("watch-regenerate model did not generate: %s" % str(e)[:200])
+                pr = pk.find("Trace")
+                vals = values.ValueGen(mr.codec, rng("C15wr", kind, k), json_safe=True).steps(pr, stream_len=3)
+                streams.append((mr.codec.encode_stream(pr, mr.schema("Trace"), vals), ("\n".join(mr.codec.ndjson_lines(pr, mr.schema("Trace"), vals)) + "\n").encode()))
+                mr.close()
+                shutil.rmtree(rootk, ignore_errors=True)
+            root = os.path.join(ctx.workdir, "cases", "watchregen_%s" % kind)
+            shutil.rmtree(root, ignore_errors=True)
+            m0 = mutmod.Mut(pkgs[0], root, langs=("python",))
+            m0.write()
+            w = C20.Watcher(root, m0.home, common.build_yardl(), pkgdir=pkgs[0].dir)
+            bad = False
+            try:
+                if not w.wait_quiescent(1, limit_s=40):
+                    raise Inconclusive("watch-regenerate %s: the initial generation in watch mode did not finish within 40 s wall" % kind)
+                for k in range(1, len(pkgs)):
+                    starts = w.counts()[0]
+                    mk_ = mutmod.Mut(pkgs[k], root, langs=("python",))
+                    mk_.write()
+                    if not w.wait_quiescent(starts + 1, limit_s=40):
+                        raise Inconclusive("watch-regenerate %s: the watcher was not quiescent within 40 s wall after save %d (alive=%s)" % (kind, k, w.alive()))
+                    ok_own = rt.PyEndpoint(mk_).copy("Trace", "bin", "ndjson", streams[k][0])
+                    ctx.ev()
+                    ctx.count("watch-regenerated.own-stream-" + ("accepted" if ok_own.rc == 0 else "refused"))
+                    for j in range(k):
+                        if chain[j] == chain[k]:
+                            continue
+                        for fmt, data in (("bin", streams[j][0]), ("ndjson", streams[j][1])):
+                            r = rt.PyEndpoint(mk_).copy("Trace", fmt, "ndjson", data)
+                            ctx.ev()
+                            ctx.count("watch-regenerated")
+                            ctx.case(("watch-regenerated", kind, j, k, fmt))
+                            if not refused(ctx, mk_, r, "py", "ndjson", "%s: reader regenerated by a running `generate --watch` after save %d (%s: %s), fed a %s stream of the model of save %d (%s)" % (
+                                    kind, k, kind, chain[k], fmt, j, chain[j]), {"class": "watch-regenerated:%s" % kind, "fmt": fmt}):
+                                bad = True
+                    mk_.close()
+            finally:
+                w.stop()
+            if not bad:
+                shutil.rmtree(root, ignore_errors=True)
+    regenerated_by_watcher()
+
     # unrelated protocols of corpus models
     def corpus_pairs(key):
         pkg2 = corpus.ser_package(key, depth=2)
